@@ -157,8 +157,8 @@ Section WithHeader.
   Definition executed_ids (c : call) (pairs : list (ctx * meta)) : list id :=
     map hash (ops_of cf pairs) ++ match c with ExecuteOp o _ _ _ => [hash o] | _ => [] end.
 
-  Lemma consumed_marks s xa pairs s1 :
-    consumed hash cf s xa pairs s1 ->
+  Lemma consumed_marks direct s xa pairs s1 :
+    consumed hash cf direct s xa pairs s1 ->
     now (ctl s1) = now (ctl s) /\ min_delay (ctl s1) = min_delay (ctl s) /\
     (forall i, In i (map hash (ops_of cf pairs)) -> state_of (ctl s) i = Ready /\ mark (ctl s1) i = 1) /\
     (forall i, ~ In i (map hash (ops_of cf pairs)) -> mark (ctl s1) i = mark (ctl s) i).
@@ -174,7 +174,7 @@ Section WithHeader.
   (* the per-id facts the monitor checks *)
   Lemma ledger_transition s c s' r pairs s1 g i :
     ginv (ctl s) g ->
-    consumed hash cf s (a_exec (authz_of c)) pairs s1 -> own_effect hash cf c s s1 s' r ->
+    consumed hash cf (is_direct c) s (a_exec (authz_of c)) pairs s1 -> own_effect hash cf c s s1 s' r ->
     let ex := executed_ids c pairs in
     (In i ex -> state_of (ctl s) i = Ready /\ state_of (ctl s') i = Done) /\
     (~ In i ex ->
@@ -195,7 +195,7 @@ Section WithHeader.
      end).
   Proof.
     intros Hg Hc Ho ex. subst ex. unfold executed_ids.
-    destruct (consumed_marks _ _ _ _ Hc) as (Hn1 & Hm1 & Hin1 & Hout1).
+    destruct (consumed_marks _ _ _ _ _ Hc) as (Hn1 & Hm1 & Hin1 & Hout1).
     destruct c as [o d p au|o x tgt au|j k au|d au|a ro k au|a ro k au|ro k au|ro ar au|new lu au|au|au|metas ctxs xa|n];
       cbn [own_effect] in Ho; rewrite ?app_nil_r.
     - (* schedule *)
@@ -268,15 +268,17 @@ Section WithHeader.
   Qed.
 
   (* ---------------- the checks of [obs_step_ok], one by one ---------------- *)
-  Lemma pair_ok_model s xa pairs :
-    Forall (pair_good cf xa (acs s)) pairs -> forallb (pair_ok cf xa (observe s)) pairs = true.
+  Lemma pair_ok_model direct s xa pairs :
+    Forall (pair_good cf direct xa (acs s)) pairs -> forallb (pair_ok cf direct xa (observe s)) pairs = true.
   Proof.
     intros Hf. apply forallb_forall. intros p Hp. rewrite Forall_forall in Hf.
     destruct (Hf p Hp) as (o & Ho & Hx). unfold pair_ok. rewrite Ho, ob_count_executor.
     destruct (role_count (acs s) EXECUTOR =? 0) eqn:E0; [reflexivity|]. apply Z.eqb_neq in E0.
-    destruct Hx as [Hx|(x & -> & Hh & Hne & Hxa)]; [contradiction|].
-    rewrite (ob_has_holds _ _ _ Hh), Hxa. replace (N.eqb x (self cf)) with false by (symmetry; apply N.eqb_neq; exact Hne).
-    reflexivity.
+    destruct Hx as [Hx|(x & -> & Hh & Hs)]; [contradiction|].
+    rewrite (ob_has_holds _ _ _ Hh). cbn [andb].
+    destruct Hs as [[-> ->]|[Hne Hxa]].
+    - rewrite N.eqb_refl. reflexivity.
+    - replace (N.eqb x (self cf)) with false by (symmetry; apply N.eqb_neq; exact Hne). exact Hxa.
   Qed.
 
   Lemma radmin_get_model s r :
@@ -319,7 +321,7 @@ Section WithHeader.
 
   Lemma op_step_ok_model s c s' r pairs s1 g i :
     ginv (ctl s) g ->
-    consumed hash cf s (a_exec (authz_of c)) pairs s1 -> own_effect hash cf c s s1 s' r ->
+    consumed hash cf (is_direct c) s (a_exec (authz_of c)) pairs s1 -> own_effect hash cf c s s1 s' r ->
     In i (h_ids h) ->
     op_step_ok hash c (executed_ids c pairs) (observe s) (i, view (ctl s') i) = true.
   Proof.
@@ -337,7 +339,7 @@ Section WithHeader.
         * destruct Hout as [Hu Hm]. rewrite Hu, Hm. unfold Run.C09.observe, observe_u; cbn [o_now]. rewrite Z.eqb_refl.
           cbn [own_effect] in Ho. destruct Ho as (_ & t & Hs & _). apply schedule_ok in Hs. destruct Hs as (Hd & _).
           assert (Hr : 2 <= mark (ctl s') i <= MAXU32).
-          { rewrite Hm. destruct (consumed_marks _ _ _ _ Hc) as (Hn1 & _).
+          { rewrite Hm. destruct (consumed_marks _ _ _ _ _ Hc) as (Hn1 & _).
             pose proof (sat_add_u32_range (now (ctl s)) d). lia. }
           cbn [andb opstate_eqb]. rewrite andb_true_r.
           destruct (state_of (ctl s') i) eqn:Es; cbn [trans_ok]; try exact E; try reflexivity.
@@ -418,12 +420,12 @@ Section WithHeader.
 
   Lemma effects_ok_model s c s' r pairs s1 g :
     ginv (ctl s) g ->
-    consumed hash cf s (a_exec (authz_of c)) pairs s1 -> own_effect hash cf c s s1 s' r ->
+    consumed hash cf (is_direct c) s (a_exec (authz_of c)) pairs s1 -> own_effect hash cf c s s1 s' r ->
     effects_ok c (observe s) (observe s') = true.
   Proof.
     intros Hg Hc Ho.
     destruct (ledger_transition s c s' r pairs s1 g 0%N Hg Hc Ho) as (_ & _ & Hnow).
-    pose proof Hc as (Hacs1 & Hcr1 & _ & _). destruct (consumed_marks _ _ _ _ Hc) as (_ & Hmin1 & _ & _).
+    pose proof Hc as (Hacs1 & Hcr1 & _ & _). destruct (consumed_marks _ _ _ _ _ Hc) as (_ & Hmin1 & _ & _).
     unfold effects_ok.
     assert (ON : o_now (observe s') = now (ctl s') /\ o_now (observe s) = now (ctl s)) by (split; reflexivity).
     assert (OM : o_min (observe s') = min_delay (ctl s') /\ o_min (observe s) = min_delay (ctl s)) by (split; reflexivity).
@@ -555,7 +557,7 @@ Section WithHeader.
     change (o_admin (observe s)) with (admin (acs s)). change (o_admin (observe s')) with (admin (acs s')).
     rewrite ob_count_executor, Hp.
     pose proof Hc as (_ & _ & Hgood & _).
-    rewrite (pair_ok_model s _ _ Hgood), (role_ok_model s c s1 s' r Ho). cbn [andb].
+    rewrite (pair_ok_model _ s _ _ Hgood), (role_ok_model s c s1 s' r Ho). cbn [andb].
     replace (same_keys (o_ops (observe s)) (o_ops (observe s'))) with true
       by (symmetry; unfold Run.C09.observe, observe_u; cbn [o_ops]; apply same_keys_map).
     cbn [andb].
@@ -572,7 +574,7 @@ Section WithHeader.
       cbn [own_effect] in Ho.
     - destruct Ho as (_ & t & Hs & _ & ->). rewrite on_eqb_refl. cbn [andb].
       apply schedule_ok in Hs. destruct Hs as (_ & _ & m & Hmin & Hle & _).
-      destruct (consumed_marks _ _ _ _ Hc) as (_ & Hm1 & _). rewrite Hm1 in Hmin.
+      destruct (consumed_marks _ _ _ _ _ Hc) as (_ & Hm1 & _). rewrite Hm1 in Hmin.
       change (o_min (observe s)) with (min_delay (ctl s)). rewrite Hmin. apply Z.leb_le. exact Hle.
     - destruct Ho as (_ & t & _ & _ & _ & _ & ->). reflexivity.
     - destruct Ho as (_ & t & _ & _ & ->). reflexivity.
